@@ -162,6 +162,10 @@ class Run:
         elif k == 'to_string':
             r = call(e.to_string, intelligent_choice=bool(op[1]))
             self.flags.add('serialised')
+        elif k == 'skip':
+            return self._finish(op, None)
+        elif k == 'copy_discard':
+            r = call(copy.deepcopy, e)
         elif k == 'deepcopy':
             r = call(copy.deepcopy, e)
             if r.ok:
@@ -189,6 +193,24 @@ class Run:
                 self.flags.add('failed-struct')
         self.results.append((r.verdict(), r.site, (r.out + r.err)[:200]))
         return r
+
+    def fork(self, drop_last=False):
+        """new Run that continues on a deep copy of this run's element (the copy is taken from the LIVE object);
+        drop_last: forget the parent's last op (its own 'copy_discard' marker) in the fork's bookkeeping"""
+        other = Run.__new__(Run)
+        other.__dict__.update(self.__dict__)
+        other.model = list(self.model)
+        other.labels = dict(self.labels)
+        other.keep = list(self.keep)
+        other.gone = list(self.gone)
+        other.results = list(self.results)
+        other.ops = list(self.ops)
+        other.flags = set(self.flags)
+        if drop_last:
+            other.ops = other.ops[:-1]
+            other.results = other.results[:-1]
+        other.apply(['deepcopy'])
+        return other
 
     # -- observation ------------------------------------------------------------------------
     def obs(self, with_string=True, ic=False):
@@ -343,6 +365,38 @@ def draw_op(data, run, weights=None, sym_bias=None):
         return ['dot_none', data.draw(st.sampled_from(run.alphabet))]
     if k == 'to_string':
         return ['to_string', data.draw(st.integers(0, 1))]
+    if k in ('set_attr', 'set_attr_none'):
+        s = schema()
+        attrs = s.attributes_of(run.tkey)
+        undeclared = ['bogus', 'font_weird', 'number', 'placement', 'type', 'id', 'default_x', 'xml_bogus_child']
+        if not attrs or data.draw(st.integers(0, 5)) == 0:
+            q = data.draw(st.sampled_from(undeclared))
+            if k == 'set_attr_none':
+                return ['set_attr_none', q]
+            return ['set_attr', q, data.draw(st.sampled_from(['x', 1, 'yes', 1.5]))]
+        a = data.draw(st.sampled_from(attrs))
+        if k == 'set_attr_none':
+            return ['set_attr_none', a['qname']]
+        if data.draw(st.integers(0, 3)) > 0:
+            txt = data.draw(st.sampled_from(lexical.valid_texts(a['type'])))
+            ok, pv = lexical.python_value_for(a['type'], txt)
+            if not ok:
+                pv = txt
+        else:
+            pv = data.draw(st.sampled_from((lexical.invalid_texts(a['type']) or []) + [None, 2.5, -3, 'zzz']))
+            if pv is None:
+                pv = []
+        return ['set_attr', a['qname'], pv]
+    if k == 'set_value':
+        s = schema()
+        tt = s.text_type(run.tkey)
+        if tt is None:
+            return ['set_value', data.draw(st.sampled_from(['', 'text', 1]))]
+        if data.draw(st.integers(0, 2)) > 0:
+            txt = data.draw(st.sampled_from(lexical.valid_texts(tt)))
+            ok, pv = lexical.python_value_for(tt, txt)
+            return ['set_value', pv if ok else txt]
+        return ['set_value', data.draw(st.sampled_from((lexical.invalid_texts(tt) or []) + [2.5, -3, 'zzz']))]
     if k == 'deepcopy':
         return ['deepcopy']
     raise ValueError(k)
